@@ -729,6 +729,27 @@ def runBlockParse (j : Json) : P Json := do
 
 end BlockParseOp
 
+/-! ### origins (C04, C05): `TrustedOrigins::from_scopes` -/
+section OriginsOp
+
+def insertSortedNat (x : Nat) : List Nat → List Nat
+  | [] => [x]
+  | y :: ys => if x < y then x :: y :: ys else if x = y then y :: ys else y :: insertSortedNat x ys
+
+def runOrigins (j : Json) : P Json := do
+  let scopes ← (← getArr (← field j "scopes")).mapM parseScope
+  let dflt ← (← getArr (← field j "default")).mapM getNat
+  let current ← getNat (← field j "current")
+  let km ← (← getArr (← field j "keys")).mapM fun e => do
+    match ← getArr e with
+    | [k, bs] => pure ((← getNat k), (← (← getArr bs).mapM getNat))
+    | _ => throw "bad key map entry"
+  let t := trustedFromScopes scopes dflt current km
+  let sorted := t.foldl (fun acc x => insertSortedNat x acc) []
+  pure (Json.mkObj [("trusted", Json.arr (sorted.map fun (n : Nat) => (n : Json)).toArray)])
+
+end OriginsOp
+
 /-! ### convert (C02, C12, C16): `proto_block_to_token_block` / `token_block_to_proto_block` -/
 section ConvertOp
 open Biscuit.Convert
@@ -1202,6 +1223,7 @@ def handle (line : String) : String :=
       | "itemparse" => runItemParse j
       | "blockparse" => runBlockParse j
       | "convert" => runConvert j
+      | "origins" => runOrigins j
       | "untrusted" => runUntrusted j
       | "macros" => runMacros j
       | "capi" => runCApi j
